@@ -768,7 +768,9 @@ def map_overlap(
             new_axis = [d % ndim_out for d in new_axis]
 
             for axis in new_axis:
-                for existing_axis in list(depth.keys()):
+                # Highest axis first: shifting axis k to k + 1 must not
+                # overwrite the not yet shifted entry of axis k + 1
+                for existing_axis in sorted(depth.keys(), reverse=True):
                     if existing_axis >= axis:
                         # Shuffle existing axis forward to give room to insert new_axis
                         depth[existing_axis + 1] = depth[existing_axis]
